@@ -56,6 +56,12 @@ def gen_geom(rng):
             g[j] = 1e-15 * rng.normal()
     c = float(gen.pick(rng, [0.0, 1.0, float(rng.normal()), float(rng.normal() * np.linalg.norm(g))]))
     Delta = float(10.0 ** rng.uniform(-4, 1))
+    r2 = np.random.default_rng([int(rng.integers(0, 2 ** 31)), 3])
+    if r2.random() < 0.12:
+        # uniformly small gradients (well above the routine's own 1e-14 'zero' threshold), constant term of comparable size:
+        # the optimum is still attained by going to the boundary, nothing may be rounded away
+        g = g / (np.max(np.abs(g)) or 1.0) * float(10.0 ** r2.uniform(-11, -4))
+        c = float(gen.pick(r2, [0.0, 0.3, -3.0, 1.0])) * float(np.linalg.norm(g)) * Delta
     xb = rng.normal(size=n) * (10.0 ** rng.integers(-1, 3) if rng.random() < 0.3 else 1.0)
     lo = xb - np.abs(rng.normal(size=n)) * 10.0 ** rng.uniform(-2, 1, size=n) * Delta
     hi = xb + np.abs(rng.normal(size=n)) * 10.0 ** rng.uniform(-2, 1, size=n) * Delta
@@ -235,7 +241,7 @@ def run_poly(case, res):
 
 def make_situ_cfg(seed, i):
     rng = engine.rng_for(seed, NUM, i, 2)
-    mode = i % 4    # 0 bounded, 1 convex, 2 regularised (+/- box), 3 regularised + scaling
+    mode = i % 5    # 0 bounded, 1 convex, 2 regularised (+/- box), 3 regularised + scaling, 4 regularised + convex sets
     spec = gen.gen_problem(rng, kinds=("linear", "sinlin", "rosen"), nmax=4, mmax=6)
     n = spec["n"]
     cfg = dict(prob=spec, user_params={}, lower=None, upper=None)
@@ -255,6 +261,14 @@ def make_situ_cfg(seed, i):
         cfg["proj"] = sets
         cfg["x0"] = (z + 0.3 * margin * rng.normal(size=n) / np.sqrt(n)).tolist()
         cfg["args"] = dict(rhobeg=float(0.3 * margin), rhoend=float(0.3 * margin * 1e-5), maxfun=int(gen.pick(rng, [20, 35])))
+    elif mode == 4:
+        # regulariser AND convex sets: the smoothed-FISTA step (its last iterate, which may increase the model next to a kink
+        # of h) is handed to the main loop only after the sufficient-decrease check of Controller.trust_region_step
+        sets, z, margin = gen.gen_convex_sets(rng, n, nsets=int(rng.integers(1, 3)), margin=float(10.0 ** rng.uniform(-0.5, 0.5)))
+        cfg["proj"] = sets
+        cfg["reg"] = dict(type=gen.pick(rng, ["l1", "l1", "l2"]), lam=float(10.0 ** rng.uniform(-1, 1.3)))
+        cfg["x0"] = (z + 0.3 * margin * rng.normal(size=n) / np.sqrt(n)).tolist()
+        cfg["args"] = dict(rhobeg=float(0.3 * margin), rhoend=float(0.3 * margin * 1e-4), maxfun=int(gen.pick(rng, [15, 25])))
     else:
         cfg["reg"] = dict(type=gen.pick(rng, ["l1", "l2"]), lam=float(10.0 ** rng.uniform(-2, 0)))
         cfg["x0"] = (rng.normal(size=n) * 2).tolist()
@@ -317,7 +331,7 @@ def run_insitu(case, res):
     contracts.drain()
     run = gen.run_cfg(cfg, ctx, timeout=200, built=built)
     oracles.common_stats(run, st)
-    st["mode|%d" % (case["i"] % 4)] = 1
+    st["mode|%d" % (case["i"] % 5)] = 1
     for w in contracts.drain():
         if len(res["viol"]) < 6:
             res["viol"].append(V(w["kind"], "in situ (run %d): %s" % (case["i"], w["msg"]), **w["witness"]))
